@@ -1,25 +1,32 @@
-"""check --replay <path>: show a stored violation and, where the replay file carries a
-parser-level behaviour, re-execute it against the current tree."""
+"""check --replay <path>: show a stored violation and re-execute its driver script against the
+current working tree of /repo (the observations are printed next to what was expected)."""
 import json, os
 from .core import build_driver, run_behaviours
-from . import parsecheck
 
 
 def main(path):
     j = json.load(open(path))
     print("property : %s" % j["property"])
     print("signature: %s" % j["signature"])
-    print("what     : %s" % j["what"][:2000])
+    print("what     : %s" % j["what"][:3000])
     rep = j.get("replay", {})
-    b = rep.get("behaviour")
-    if isinstance(b, dict) and "parses" in b and "texts" in rep:
-        exe = build_driver("asan")
-        print("re-executing against the current tree ...")
-        # schemas are not stored in the replay: print the texts so that they can be fed to the library by hand
-        for t in rep["texts"]:
-            print("  text: %r" % t)
     if "expected" in rep:
-        print("expected : %s" % json.dumps(rep["expected"])[:1500])
+        print("expected : %s" % json.dumps(rep["expected"])[:2000])
     if "observed" in rep:
-        print("observed : %s" % json.dumps(rep["observed"])[:1500])
+        print("observed (when found): %s" % json.dumps(rep["observed"])[:2000])
+    if rep.get("trace_file"):
+        print("recorded execution: %s   (bin/tracedebug <file> shows where it leaves the specification)" % rep["trace_file"])
+    script = rep.get("script")
+    if script:
+        exe = build_driver("asan")
+        res = run_behaviours(exe, [("replay", script)], "replay", per_timeout=120)
+        g = res["replay"]
+        print("---- re-executed against the current tree ----")
+        if g["crash"]:
+            print("%s: %s" % (g["crash"]["kind"], g["crash"]["detail"][:3000]))
+        for l in g["lines"]:
+            short = {k: v for k, v in l.items() if k in ("cmd", "ret", "diag", "cb", "out", "text")}
+            print(json.dumps(short)[:600])
+            if "ctx" in l:
+                print("   ctx: %s" % json.dumps(l["ctx"])[:1200])
     return 0
